@@ -2,16 +2,33 @@
      armor enc <payload>                     hex of armor_encode
      armor stream <payload> <sizes>          hex of armor_stream (payload cut into Writes of the
                                              given sizes, remainder in one last Write)
-     armor dec <srcchunk> <rbuf> <doc> <hex>...   result of armor_decode (the two read sizes only
-                                             drive the implementation; a long document is spread
-                                             over several tokens: payload spec, then raw hex)
-     armor rt <payload> <sizes> <srcchunk> <rbuf>   decode (stream ...)
+     armor dec <srcpat> <rbufpat> <doc> <hex>...
+                                             the STREAMING decoder (Model/ArmorStream.v): the source delivers
+                                             the document in Reads of the sizes of <srcpat> (cyclic, 0 = all
+                                             the rest), the caller reads with buffers of the sizes of
+                                             <rbufpat> (cyclic) until io.EOF or an error.  Result
+                                             "ok x<data> g=<stuck>" or "E:<class> x<data before the error> g=<stuck>";
+                                             g=1: the decoder's goroutine is blocked for ever.
+                                             (a long document is spread over several tokens: payload spec, then raw hex)
+     armor dec0 ...                          the same for the code before /repo commit 0dac441 (dec_read0)
+     armor rt <payload> <sizes> <srcpat> <rbufpat>   dec of (stream ...)
+     armor strict <doc> <hex>...             armor_decode (whole-document meaning)
+     armor tok <doc> <hex>...                the token stream (Model/Armor.v tokens), Text() applied
+     armor unesc <payload>                   hex of unescape (html.UnescapeString)
+     armor ahead <srcpat> <rbufpat> <nreads> <doc> <hex>...
+                                             at most <nreads> Reads, then the producer runs to its next Write:
+                                             "<data> <-|eof|E:class> c=<source bytes consumed>"
+     armor aheadg <rbufpat> <nreads> <need> <doc> <hex>...
+                                             the same with a source that returns as much as each Read asks for;
+                                             <need> = the c of "ahead 1 ..." (what a byte-wise source would have
+                                             delivered).  "<data> <end> c=ok": the implementation prints c=over:<n>
+                                             when it consumed more than need + 3*64 KiB
      armor b64 <payload>                     hex of b64_encode
      armor b64d <payload>                    b64_decode
      armor boiler                            hex(start) "." hex(end)
-     armor mon <srcchunk> <rbuf> <doc> <hex>...  "returns" (monitors on the implementation only) *)
+     armor mon <srcpat> <rbufpat> <doc> <hex>...  "returns" (monitors on the implementation only) *)
 From Coq Require Import List NArith Bool Arith String.
-From Snow Require Import Lib.Wire Model.Base64 Model.Armor.
+From Snow Require Import Lib.Wire Model.Base64 Model.Armor Model.ArmorStream.
 Import ListNotations.
 Open Scope N_scope.
 
@@ -33,13 +50,67 @@ Definition err_print (e : derr) : bytes :=
   | EOversize => bs "oversize"
   | EBadBase64 => bs "b64"
   | EEmpty => bs "empty"
-  | EStray | ENested | EUnterminated => bs "err"   (* untyped fmt.Errorf in the Go code *)
+  | EStray | ENested | EUnterminated | ETooLong => bs "err"   (* untyped / not distinguished by the driver *)
   end.
 
 Definition res_print (r : dres) : bytes :=
   match r with
   | DOk d => bs "ok x" ++ hex_encode d
   | DErr e => bs "E:" ++ err_print e
+  end.
+
+Definition sres_print (r : sres tks) : bytes :=
+  (match s_end r with
+   | Some REOF => bs "ok x" ++ hex_encode (s_data r)
+   | Some (RErr e) => bs "E:" ++ err_print e ++ bs " x" ++ hex_encode (s_data r)
+   | None => bs "!fuel"
+   end) ++ bs " g=" ++ bool_print (sp_stuck (s_prod r)).
+
+Definition stream_run (srcpat rbufpat : list nat) (doc : bytes) : bytes :=
+  sres_print (armor_stream_decode (cut_doc srcpat doc) (size_fun rbufpat) (fuel_for doc)).
+(* the code before /repo commit 0dac441 (proposed-fixes/C10-decoder-goroutine-leak-b64err.diff) *)
+Definition stream_run0 (srcpat rbufpat : list nat) (doc : bytes) : bytes :=
+  sres_print (armor_stream_decode0 (cut_doc srcpat doc) (size_fun rbufpat) (fuel_for doc)).
+
+Definition tok_print (t : tok) : bytes :=
+  match t with
+  | TkText k d => bs "T" ++ hex_encode (text_data k d)
+  | TkStart n => bs "S" ++ hex_encode n
+  | TkEnd n => bs "E" ++ hex_encode n
+  | TkOther => bs "O"
+  | TkEOF => bs "!eof"
+  | TkOver => bs "!over"
+  end.
+(* up to the first ErrorToken *)
+Fixpoint toks_print (ts : list tok) : list bytes :=
+  match ts with
+  | [] => []
+  | TkEOF :: _ => [tok_print TkEOF]
+  | TkOver :: _ => [tok_print TkOver]
+  | t :: r => tok_print t :: toks_print r
+  end.
+
+Definition rend_print (e : option rend) : bytes :=
+  match e with
+  | None => bs "-"
+  | Some REOF => bs "eof"
+  | Some (RErr e) => bs "E:" ++ err_print e
+  end.
+
+Definition ahead_run (srcpat rbufpat : list nat) (nreads : nat) (doc : bytes) : bytes :=
+  match sdec_new (cut_doc srcpat doc) with
+  | NewErr _ e p => bs "x " ++ rend_print (Some (RErr e)) ++ bs " c=" ++ dec_print (p_consumed (sp_fill p))
+  | NewOk _ d =>
+      let '(b, e, d') := read_all tks sdec_read nreads (size_fun rbufpat) 0 d [] in
+      bs "x" ++ hex_encode b ++ [SP] ++ rend_print e ++ bs " c=" ++ dec_print (p_consumed (sp_fill (d_p d')))
+  end.
+
+Definition aheadg_run (rbufpat : list nat) (nreads : nat) (doc : bytes) : bytes :=
+  match sdec_new [doc] with
+  | NewErr _ e p => bs "x " ++ rend_print (Some (RErr e)) ++ bs " c=ok"
+  | NewOk _ d =>
+      let '(b, e, d') := read_all tks sdec_read nreads (size_fun rbufpat) 0 d [] in
+      bs "x" ++ hex_encode b ++ [SP] ++ rend_print e ++ bs " c=ok"
   end.
 
 Definition run (args : list bytes) : bytes :=
@@ -50,21 +121,50 @@ Definition run (args : list bytes) : bytes :=
         | [] => hex_encode boilerplate_start ++ [DOT] ++ hex_encode boilerplate_end
         | _ => ERR_BADCASE
         end
-      else if beq op (bs "dec") || beq op (bs "mon") then
+      else if beq op (bs "dec") || beq op (bs "mon") || beq op (bs "dec0") then
         match rest with
         | b :: c :: a :: more =>
-            match doc_parse a more, dec_parse b, dec_parse c with
-            | Some p, Some _, Some _ =>
-                if beq op (bs "dec") then res_print (armor_decode p) else bs "returns"
+            match doc_parse a more, list_parse dec_parse_nat b, list_parse dec_parse_nat c with
+            | Some p, Some sp, Some rp =>
+                if beq op (bs "dec") then stream_run sp rp p
+                else if beq op (bs "dec0") then stream_run0 sp rp p else bs "returns"
             | _, _, _ => ERR_BADCASE
+            end
+        | _ => ERR_BADCASE
+        end
+      else if beq op (bs "ahead") then
+        match rest with
+        | b :: c :: k :: a :: more =>
+            match doc_parse a more, list_parse dec_parse_nat b, list_parse dec_parse_nat c, dec_parse_nat k with
+            | Some p, Some sp, Some rp, Some k => ahead_run sp rp k p
+            | _, _, _, _ => ERR_BADCASE
+            end
+        | _ => ERR_BADCASE
+        end
+      else if beq op (bs "aheadg") then
+        match rest with
+        | c :: k :: nd :: a :: more =>
+            match doc_parse a more, list_parse dec_parse_nat c, dec_parse_nat k, dec_parse nd with
+            | Some p, Some rp, Some k, Some _ => aheadg_run rp k p
+            | _, _, _, _ => ERR_BADCASE
+            end
+        | _ => ERR_BADCASE
+        end
+      else if beq op (bs "strict") || beq op (bs "tok") then
+        match rest with
+        | a :: more =>
+            match doc_parse a more with
+            | Some p => if beq op (bs "strict") then res_print (armor_decode p)
+                        else join [COMMA] (toks_print (tokens p))
+            | None => ERR_BADCASE
             end
         | _ => ERR_BADCASE
         end
       else if beq op (bs "rt") then
         match rest with
         | [a; b; c; d] =>
-            match payload_parse a, list_parse dec_parse_nat b, dec_parse c, dec_parse d with
-            | Some p, Some sz, Some _, Some _ => res_print (armor_decode (armor_stream (cut p sz)))
+            match payload_parse a, list_parse dec_parse_nat b, list_parse dec_parse_nat c, list_parse dec_parse_nat d with
+            | Some p, Some sz, Some sp, Some rp => stream_run sp rp (armor_stream (cut p sz))
             | _, _, _, _ => ERR_BADCASE
             end
         | _ => ERR_BADCASE
@@ -86,6 +186,7 @@ Definition run (args : list bytes) : bytes :=
             | Some p =>
                 if beq op (bs "enc") then hex_encode (armor_encode p)
                 else if beq op (bs "b64") then hex_encode (b64_encode p)
+                else if beq op (bs "unesc") then hex_encode (unescape p)
                 else if beq op (bs "b64d") then
                   match b64_decode p with Some d => bs "ok x" ++ hex_encode d | None => bs "E:b64" end
                 else ERR_BADCASE
